@@ -79,26 +79,161 @@ func intRange(b *types.Basic) (string, string, bool) {
 	return "", "", false
 }
 
-// shimConst returns the JSON string constant a xmlNameJSONType* shim marshals to.
-func (g *gen) shimConst(name string) string {
-	fd := g.decls[name+".MarshalJSON"]
-	if fd == nil {
-		g.fail("%s has no MarshalJSON", name)
+// calleeKey resolves a call to a function or method declared in the translated package and
+// returns its key in g.decls ("Name" or "Recv.Name"), or "".
+func (g *gen) calleeKey(c *ast.CallExpr) string {
+	var id *ast.Ident
+	switch f := c.Fun.(type) {
+	case *ast.Ident:
+		id = f
+	case *ast.SelectorExpr:
+		id = f.Sel
+	default:
 		return ""
 	}
-	var lit string
+	fn, ok := g.p.Info.Uses[id].(*types.Func)
+	if !ok || fn.Pkg() != g.p.Types {
+		return ""
+	}
+	key := fn.Name()
+	if sig, ok := fn.Type().(*types.Signature); ok && sig.Recv() != nil {
+		t := sig.Recv().Type()
+		if p, ok := t.(*types.Pointer); ok {
+			t = p.Elem()
+		}
+		if n, ok := t.(*types.Named); ok {
+			key = n.Obj().Name() + "." + key
+		}
+	}
+	if g.decls[key] == nil {
+		return ""
+	}
+	return key
+}
+
+// codec entry points and the functions reported on their own are never followed into
+var noFollow = map[string]bool{"marshalJSON": true, "unmarshalJSON": true, "findType": true}
+
+// reachable returns fn followed by the unexported functions/methods of the package it calls,
+// transitively (the code a maintainer may have extracted into helpers), in call order.
+func (g *gen) reachable(fn string) []*ast.FuncDecl {
+	var out []*ast.FuncDecl
+	seen := map[string]bool{}
+	var visit func(key string)
+	visit = func(key string) {
+		fd := g.decls[key]
+		if fd == nil || fd.Body == nil || seen[key] {
+			return
+		}
+		seen[key] = true
+		out = append(out, fd)
+		ast.Inspect(fd.Body, func(n ast.Node) bool {
+			if c, ok := n.(*ast.CallExpr); ok {
+				k := g.calleeKey(c)
+				name := k
+				if j := strings.LastIndexByte(k, '.'); j >= 0 {
+					name = k[j+1:]
+				}
+				if k != "" && !noFollow[k] && !ast.IsExported(name) {
+					visit(k)
+				}
+			}
+			return true
+		})
+	}
+	visit(fn)
+	return out
+}
+
+// evalString evaluates an expression to the string (or []byte) constant it denotes: literals,
+// named constants, concatenation, conversions ([]byte(x), string(x), T(x)), parameters bound
+// in env, and calls to single-return functions of the package.
+func (g *gen) evalString(e ast.Expr, env map[types.Object]string, depth int) (string, bool) {
+	if tv, ok := g.p.Info.Types[e]; ok && tv.Value != nil && tv.Value.Kind() == constant.String {
+		return constant.StringVal(tv.Value), true
+	}
+	switch x := e.(type) {
+	case *ast.ParenExpr:
+		return g.evalString(x.X, env, depth)
+	case *ast.Ident:
+		obj := g.p.Info.Uses[x]
+		if v, ok := env[obj]; ok {
+			return v, true
+		}
+		if c, ok := obj.(*types.Const); ok && c.Val().Kind() == constant.String {
+			return constant.StringVal(c.Val()), true
+		}
+	case *ast.BinaryExpr:
+		if x.Op == token.ADD {
+			a, ok1 := g.evalString(x.X, env, depth)
+			b, ok2 := g.evalString(x.Y, env, depth)
+			return a + b, ok1 && ok2
+		}
+	case *ast.CallExpr:
+		if tv, ok := g.p.Info.Types[x.Fun]; ok && tv.IsType() && len(x.Args) == 1 {
+			return g.evalString(x.Args[0], env, depth)
+		}
+		key := g.calleeKey(x)
+		if key == "" || depth > 6 {
+			return "", false
+		}
+		fd := g.decls[key]
+		if fd.Body == nil || len(fd.Body.List) == 0 {
+			return "", false
+		}
+		ret, ok := fd.Body.List[len(fd.Body.List)-1].(*ast.ReturnStmt)
+		if !ok || len(fd.Body.List) != 1 || len(ret.Results) == 0 {
+			return "", false
+		}
+		inner := map[types.Object]string{}
+		k := 0
+		for _, f := range fd.Type.Params.List {
+			for _, n := range f.Names {
+				if k < len(x.Args) {
+					if v, ok := g.evalString(x.Args[k], env, depth+1); ok {
+						inner[g.p.Info.Defs[n]] = v
+					}
+				}
+				k++
+			}
+		}
+		return g.evalString(ret.Results[0], inner, depth+1)
+	}
+	return "", false
+}
+
+// literalResults lists the constant byte strings a method returns as its first result.
+func (g *gen) literalResults(fn string) []string {
+	fd := g.decls[fn]
+	if fd == nil || fd.Body == nil {
+		return nil
+	}
+	var out []string
 	ast.Inspect(fd.Body, func(n ast.Node) bool {
-		if bl, ok := n.(*ast.BasicLit); ok && bl.Kind == token.STRING {
-			s, err := strconv.Unquote(bl.Value)
-			if err == nil {
-				lit = s
+		if r, ok := n.(*ast.ReturnStmt); ok && len(r.Results) > 0 {
+			if v, ok := g.evalString(r.Results[0], nil, 0); ok {
+				out = append(out, v)
 			}
 		}
 		return true
 	})
-	u, err := strconv.Unquote(lit)
+	return out
+}
+
+// shimConst returns the JSON string constant a xmlNameJSONType* shim marshals to.
+func (g *gen) shimConst(name string) string {
+	if g.decls[name+".MarshalJSON"] == nil {
+		g.fail("%s has no MarshalJSON", name)
+		return ""
+	}
+	lits := g.literalResults(name + ".MarshalJSON")
+	if len(lits) != 1 {
+		g.fail("%s.MarshalJSON does not return one constant: %q", name, lits)
+		return ""
+	}
+	u, err := strconv.Unquote(lits[0])
 	if err != nil {
-		g.fail("%s.MarshalJSON does not return a JSON string literal: %q", name, lit)
+		g.fail("%s.MarshalJSON does not return a JSON string literal: %q", name, lits[0])
 	}
 	return u
 }
@@ -296,75 +431,128 @@ func (g *gen) objectsOrder() []string {
 	return out
 }
 
-// dispatch reads the `switch t { case "node": ... o.Nodes = append(o.Nodes, n) ... }` table.
-func (g *gen) dispatch() [][2]string {
-	fd := g.decls["OSM.UnmarshalJSON"]
-	if fd == nil {
-		return nil
+// osmField returns the field name when e is a selector x.F with x of type OSM / *OSM.
+func (g *gen) osmField(e ast.Expr) (string, bool) {
+	sel, ok := e.(*ast.SelectorExpr)
+	if !ok {
+		return "", false
 	}
-	var out [][2]string
-	ast.Inspect(fd.Body, func(n ast.Node) bool {
-		sw, ok := n.(*ast.SwitchStmt)
-		if !ok {
-			return true
-		}
-		for _, c := range sw.Body.List {
-			cc := c.(*ast.CaseClause)
-			for _, e := range cc.List {
-				bl, ok := e.(*ast.BasicLit)
-				if !ok || bl.Kind != token.STRING {
-					g.fail("UnmarshalJSON: non-literal case")
-					continue
+	tv, ok := g.p.Info.Types[sel.X]
+	if !ok {
+		return "", false
+	}
+	t := tv.Type
+	if p, ok := t.(*types.Pointer); ok {
+		t = p.Elem()
+	}
+	if n, ok := t.(*types.Named); ok && n.Obj().Pkg() == g.p.Types && n.Obj().Name() == "OSM" {
+		return sel.Sel.Name, true
+	}
+	return "", false
+}
+
+// storeTarget finds the OSM field assigned in a list of statements.
+func (g *gen) storeTarget(body []ast.Stmt) string {
+	target := ""
+	for _, st := range body {
+		ast.Inspect(st, func(n ast.Node) bool {
+			if as, ok := n.(*ast.AssignStmt); ok && len(as.Lhs) == 1 {
+				if f, ok := g.osmField(as.Lhs[0]); ok {
+					target = f
 				}
-				tn, _ := strconv.Unquote(bl.Value)
-				target := ""
-				for _, st := range cc.Body {
-					ast.Inspect(st, func(n ast.Node) bool {
-						if as, ok := n.(*ast.AssignStmt); ok && len(as.Lhs) == 1 {
-							if s, ok := as.Lhs[0].(*ast.SelectorExpr); ok {
-								if id, ok := s.X.(*ast.Ident); ok && id.Name == "o" {
-									target = s.Sel.Name
-								}
-							}
-						}
-						return true
-					})
-				}
-				if target == "" {
-					g.fail("UnmarshalJSON: case %q stores nowhere", tn)
-				}
-				out = append(out, [2]string{tn, target})
 			}
+			return true
+		})
+	}
+	return target
+}
+
+// dispatch reads the type-name -> OSM field table of OSM.UnmarshalJSON, wherever the code sits
+// (the method itself or unexported helpers it calls) and however it is spelled: a switch over
+// the type name with literal or named-constant labels, or an if / else-if chain of comparisons
+// with such constants.
+func (g *gen) dispatch() [][2]string {
+	var out [][2]string
+	seen := map[string]bool{}
+	add := func(label ast.Expr, body []ast.Stmt) {
+		tn, ok := g.evalString(label, nil, 0)
+		if !ok {
+			g.fail("UnmarshalJSON: type label is not a constant at %s", g.p.Pos(label))
+			return
 		}
-		return false
-	})
+		target := g.storeTarget(body)
+		if target == "" {
+			return // e.g. the comparison `ts.Type == ""` of findType-like code: stores nothing
+		}
+		if !seen[tn] {
+			seen[tn] = true
+			out = append(out, [2]string{tn, target})
+		}
+	}
+	for _, fd := range g.reachable("OSM.UnmarshalJSON") {
+		ast.Inspect(fd.Body, func(n ast.Node) bool {
+			switch st := n.(type) {
+			case *ast.SwitchStmt:
+				if st.Tag == nil {
+					return true
+				}
+				if tv, ok := g.p.Info.Types[st.Tag]; !ok || !isStringType(tv.Type) {
+					return true
+				}
+				for _, c := range st.Body.List {
+					cc := c.(*ast.CaseClause)
+					for _, e := range cc.List {
+						add(e, cc.Body)
+					}
+				}
+			case *ast.IfStmt:
+				be, ok := st.Cond.(*ast.BinaryExpr)
+				if !ok || be.Op != token.EQL {
+					return true
+				}
+				for _, side := range []ast.Expr{be.X, be.Y} {
+					if tv, ok := g.p.Info.Types[side]; ok && tv.Value != nil && tv.Value.Kind() == constant.String {
+						add(side, st.Body.List)
+					}
+				}
+			}
+			return true
+		})
+	}
 	return out
 }
 
-// codecCalls lists the codec entry points called in the body of fn, in source order.
+func isStringType(t types.Type) bool {
+	b, ok := t.Underlying().(*types.Basic)
+	return ok && b.Info()&types.IsString != 0
+}
+
+// codecCalls lists the codec entry points called in the body of fn and of the unexported
+// helpers it calls, in source order.
 func (g *gen) codecCalls(fn string) []string {
-	fd := g.decls[fn]
-	if fd == nil {
+	if g.decls[fn] == nil {
 		return []string{"<missing>"}
 	}
 	var out []string
-	ast.Inspect(fd.Body, func(n ast.Node) bool {
-		c, ok := n.(*ast.CallExpr)
-		if !ok {
+	for _, fd := range g.reachable(fn) {
+		ast.Inspect(fd.Body, func(n ast.Node) bool {
+			c, ok := n.(*ast.CallExpr)
+			if !ok {
+				return true
+			}
+			switch f := c.Fun.(type) {
+			case *ast.Ident:
+				if f.Name == "marshalJSON" || f.Name == "unmarshalJSON" {
+					out = append(out, f.Name)
+				}
+			case *ast.SelectorExpr:
+				if id, ok := f.X.(*ast.Ident); ok && id.Name == "json" {
+					out = append(out, "json."+f.Sel.Name)
+				}
+			}
 			return true
-		}
-		switch f := c.Fun.(type) {
-		case *ast.Ident:
-			if f.Name == "marshalJSON" || f.Name == "unmarshalJSON" {
-				out = append(out, f.Name)
-			}
-		case *ast.SelectorExpr:
-			if id, ok := f.X.(*ast.Ident); ok && id.Name == "json" {
-				out = append(out, "json."+f.Sel.Name)
-			}
-		}
-		return true
-	})
+		})
+	}
 	return out
 }
 
@@ -420,6 +608,15 @@ func main() {
 		disp = append(disp, fmt.Sprintf("(%s, %s)", tr.CoqString(d[0]), tr.CoqString(d[1])))
 	}
 	fmt.Fprintf(&b, "Definition unmarshal_dispatch : list (string * string) := [%s].\n\n", strings.Join(disp, "; "))
+	quote := func(l []string) string {
+		var q []string
+		for _, x := range l {
+			q = append(q, tr.CoqString(x))
+		}
+		return "[" + strings.Join(q, "; ") + "]"
+	}
+	fmt.Fprintf(&b, "(* byte literals returned as is by the hand-written marshalers *)\nDefinition members_literals : list string := %s.\nDefinition date_literals : list string := %s.\n\n",
+		quote(g.literalResults("Members.MarshalJSON")), quote(g.literalResults("Date.MarshalJSON")))
 	fns := []string{"OSM.MarshalJSON", "OSM.UnmarshalJSON", "findType", "Tags.MarshalJSON", "Tags.UnmarshalJSON",
 		"WayNodes.MarshalJSON", "WayNodes.UnmarshalJSON", "Members.MarshalJSON", "Date.MarshalJSON"}
 	sort.Strings(fns)
